@@ -1174,6 +1174,15 @@ def symbolic_result(fdecl):
             return _sym_expr(s['inner'][0], env)
         elif k in ('NullStmt',):
             continue
+        elif k == 'IfStmt':
+            # `if (special case) return constant;` -- an early exit for a special case; the fall-through value is compared
+            parts = [c for c in s.get('inner', []) if isinstance(c, dict)]
+            then = parts[1] if len(parts) == 2 else None
+            while then is not None and then.get('kind') == 'CompoundStmt' and len(then.get('inner', [])) == 1:
+                then = then['inner'][0]
+            if then is None or then.get('kind') != 'ReturnStmt':
+                raise AnalysisError('SIB1: conditional C statement other than an early `if (...) return ...;` in a declared copy/original')
+            continue
         elif k in ('CallExpr', 'CStyleCastExpr', 'ParenExpr', 'ImplicitCastExpr'):
             continue    # (void)x; CYTHON_UNUSED_VAR(x);
         else:
@@ -1310,7 +1319,7 @@ def copy_sites(expanded):
     return out
 
 
-SIB_PRELUDE = ('#define CYTHON_INLINE\n#define CYTHON_UNUSED_VAR(x) (void)(x)\ntypedef long long PY_LONG_LONG;\n'
+SIB_PRELUDE = ('#define CYTHON_INLINE\n#define CYTHON_UNUSED_VAR(x) (void)(x)\n#define likely(x) (x)\n#define unlikely(x) (x)\ntypedef long long PY_LONG_LONG;\n'
                'void *PyLong_FromLong(long);\nvoid *PyLong_FromLongLong(long long);\n')
 
 
